@@ -75,8 +75,15 @@ def required(tier):
 def make_instance(rng, tier):
     ploidy = int(rng.choice([2, 3, 4] if tier == "quick" else [2, 3, 4, 5]))
     n_pos = int(rng.choice([1, 2, 3] if tier == "quick" else [1, 2, 3, 4]))
+    high = rng.random() < 0.1
+    if high:
+        # high ploidy (pooled samples) on a tiny locus
+        ploidy = int(rng.choice([6, 8]))
+        n_pos = int(rng.choice([1, 2]))
     while True:
         n_alleles = rng.choice([2, 2, 3, 4], size=n_pos)
+        if high:
+            n_alleles = np.full(n_pos, 2)
         if int(np.prod(n_alleles)) <= (16 if ploidy <= 3 else 9):
             break
     n_nucl = int(max(2, n_alleles.max()))
